@@ -335,7 +335,8 @@ def run(ck):
     # ---- coverage of (operator kind x child x chunk index x fault kind) with multi-chunk inputs
     REQUIRED = ["mergejoin:inner", "mergejoin:left_outer", "hashjoin:inner", "hashjoin:left_outer", "hashjoin:right_outer",
                 "hashjoin:full_outer", "hashjoin:semi", "hashjoin:anti", "join:inner", "join:left_outer",
-                "sortagg", "hashagg", "agg", "topn", "order", "window", "filter", "proj", "limit", "insert", "delete"]
+                "sortagg", "hashagg", "agg", "topn", "order", "window", "filter", "proj", "limit", "insert", "delete",
+                "analyze", "copy_to"]
     arity = lambda lab: 2 if lab.split(":")[0] in ("join", "hashjoin", "mergejoin") else 1
     gaps = []
     for lab in REQUIRED:
